@@ -13,11 +13,17 @@ inductive Rel2 {α β : Type} (R : α → β → Prop) : List α → List β →
 namespace BrokerFan
 open BState Node
 
+/-! ### `applyQOS` only reads the subscription tree -/
+
+theorem applyQOS_congr {b1 b2 : BSess} (h : b1.subs = b2.subs) (m : Message) : applyQOS b1 m = applyQOS b2 m := by
+  unfold applyQOS subQos
+  rw [h]
+
 /-! ### `enqueue` -/
 
 theorem enqueue_ok (cfg : Cfg) (b b' : BSess) (m : Message) (g : Nat) (h : enqueue cfg b m g = .ok b') :
-    (if m.qos = 0 then b'.tempQ = b.tempQ ++ [(g, m)] ∧ b'.storedQ = b.storedQ
-     else b'.storedQ = b.storedQ ++ [m] ∧ b'.tempQ = b.tempQ)
+    (if m.qos = 0 then b'.tempQ = b.tempQ ++ [(g, applyQOS b m)] ∧ b'.storedQ = b.storedQ
+     else b'.storedQ = b.storedQ ++ [applyQOS b m] ∧ b'.tempQ = b.tempQ)
     ∧ b'.subs = b.subs ∧ b'.sess = b.sess ∧ b'.active = b.active := by
   unfold enqueue at h
   by_cases hq : m.qos = 0
